@@ -63,6 +63,21 @@ CHECKS = {
     ref="DESIGN.md §3 C13",
     note="Const.build equality is Python equality (documented). Peek does not build its inner construct (documented). Zero-width GreedyRange elements and lazy wrappers are excluded from Error chains.",
     technique="exhaustive enumeration of one-byte domains per generated instance (Hypothesis generates instances); twin-construct differential for Error propagation"),
+ "C08": dict(
+    text="Chains of up to 4 delimiters (Prefixed with 5 length-field types and includelength, FixedSized, NullTerminated with every include/consume/require combination and 1/2/4-byte terminators, NullStripped, OffsettedEnd, ProcessXor) wrap an observing Struct(Tell, GreedyBytes|Bytes(k)|RawCopy|Pointer, Tell) and are parsed from stream offsets 0..12 with random prefix/payload/suffix. An independent slicer computes from the raw bytes the region each delimiter must present and the contractual outer position; the check compares region content, absolute Tell/RawCopy/Pointer offsets, the outer tell() after parse_stream (also when the inner construct consumes less than the region) and demands StreamError for overlong regions. Single delimiters are enumerated over region lengths 0..12 x 6 start offsets x observers.",
+    ref="DESIGN.md §3 C08",
+    note="Tell/Pointer inside Transformed/Restreamed/ProcessRotateLeft/Compressed are documented as unsupported and not generated.",
+    technique="property-based testing (Hypothesis) + enumeration of region lengths; oracle = independent region slicer over the raw bytes"),
+ "C09": dict(
+    text="Peek, Pointer (absolute and end-relative, parse and build), Select, Optional, GreedyRange and Union (parsefrom None/index/name) over alternatives from a pool of fixed, variable, validating and nested constructs plus generated ones, on random bytes, valid encodings, 'almost valid' encodings (corrupted or truncated at a byte position inside an alternative) and concatenations, from start offsets 0..3. Each member parsed in isolation from a fresh stream at the same offset is the reference: values, end positions, position restoration after failure, SelectError with restored position, and that builds write only what the chosen alternative writes. Every byte position x 3 corruptions and every truncation of sample encodings is enumerated.",
+    ref="DESIGN.md §3 C09",
+    note="Members are context-free (isolation is well defined); GreedyRange elements consume at least one byte.",
+    technique="metamorphic property-based testing: combinator result vs. members parsed in isolation"),
+ "C14": dict(
+    text="RawCopy around generated inner constructs in six placements (top level at offsets 0..5, after a prefix member, inside Prefixed and FixedSized regions, in an Array, nested in another RawCopy): data must equal the outer-stream slice between the reported absolute offsets, length their difference, inner.parse(data) the value, builds from value/data/parsed result identical, offsets observed while building (through Rebuild members) correct, build_file == build. Checksum over RawCopy regions with crc32/adler32/md5/sha1/sha256/truncated/8-bit digests in three layouts: built messages verify, a stale supplied digest is recomputed, hash(region.data)==checksum on every accepted (also mutated) input, and every single-bit corruption of a structure-stable region or of the digest raises exactly ChecksumError.",
+    ref="DESIGN.md §3 C14",
+    note="hashlib/zlib trusted. Structure-stable = fixed-size region without validating members.",
+    technique="property-based testing + exhaustive single-bit fault injection per generated message"),
 }
 
 NOT_APPLICABLE = [dict(property_id=p, reason="check not yet built in this revision of /verif (planned, see DESIGN.md §3)") for p in ALL if p not in CHECKS]
